@@ -3,19 +3,20 @@ CONSTANTS
   Series = {"a"}
   MaxSamples = 3
   Gaps = {1, 2, 3}
-  FirstT <- Neg2
+  FirstT = 0
   MaxT = 5
   Kinds = {"f", "sf", "h", "sh"}
   Sels <- SelsA
   Offs <- OffsQuick
-  Ats <- AtsMid
+  Ats <- AtsQuick
   Ranges = {2, 3}
   Funcs = {"count_over_time", "last_over_time"}
+  TsFuncs = {"timestamp"}
   SqRanges = {4}
-  SqSteps = {0, 3}
-  SqOffs <- SqOffsBig
-  SqAts <- AtsMid
-  EvalTimes = {4, 5}
+  SqSteps = {3}
+  SqOffs <- SqOffsSub
+  SqAts <- AtsSub
+  EvalTimes = {5, 6}
   Lookbacks = {3}
   DefStep = 2
   MaxWraps = 3
